@@ -108,7 +108,7 @@ func runC18(res *Result, rng *RNG, tier string, outDir string) {
 				func() {
 					defer func() { recover() }()
 					if r.Bool() {
-						loaded.LoadPolicies(prevSnapshot)
+						loadPoliciesOwned(loaded, prevSnapshot)
 					} else {
 						applyContent(loaded, prevContent)
 					}
@@ -128,7 +128,7 @@ func runC18(res *Result, rng *RNG, tier string, outDir string) {
 						pan = fmt.Sprint(p)
 					}
 				}()
-				loadErr = loaded.LoadPolicies(snapshot)
+				loadErr = loadPoliciesOwned(loaded, snapshot)
 			}()
 			if pan != "" {
 				res.Violate("panic:load", "LoadPolicies panicked on a snapshot produced by SerializePolicies: "+pan, rep)
@@ -198,7 +198,7 @@ func runC18(res *Result, rng *RNG, tier string, outDir string) {
 					switch r.Intn(4) {
 					case 0:
 						what = "LoadPolicies"
-						ev.LoadPolicies(snapshot)
+						loadPoliciesOwned(ev, snapshot)
 					case 1:
 						what = "Add*"
 						if len(content) > 0 {
@@ -253,7 +253,7 @@ func runC18(res *Result, rng *RNG, tier string, outDir string) {
 								lp = fmt.Sprint(p)
 							}
 						}()
-						if fresh.LoadPolicies(mb) == nil {
+						if loadPoliciesOwned(fresh, mb) == nil {
 							fresh.Authorize()
 							_ = fresh.PrintWorld()
 						}
@@ -293,7 +293,7 @@ func runC18(res *Result, rng *RNG, tier string, outDir string) {
 						lp = fmt.Sprint(p)
 					}
 				}()
-				lerr = fresh.LoadPolicies(m)
+				lerr = loadPoliciesOwned(fresh, m)
 				if lerr == nil {
 					fresh.Authorize()
 				}
